@@ -51,10 +51,11 @@ _PYTHON_TYPE_TO_DTYPE: dict[type, ir.DataType] = {
 def _constant_cache_key(value: Any) -> Any:
     """Return a hashable key that distinguishes values that are equal but not identical.
 
-    ``0.0 == -0.0`` (and they hash alike), but they are different tensors.
+    ``0.0 == -0.0`` (and they hash alike), but they are different tensors. The key of a
+    float is tagged so that it never equals the key of a list such as ``[2, 1]``.
     """
     if isinstance(value, float):
-        return (value, math.copysign(1.0, value))
+        return (float, value, math.copysign(1.0, value))
     return value
 
 
